@@ -713,6 +713,18 @@ pub(crate) fn openat2<Fd: AsFd, P: AsRef<Path>>(
     let mut how = how.clone();
     how.flags |= libc::O_CLOEXEC as u64;
 
+    // The kernel would only see the path up to the first NUL byte. Refuse such
+    // paths like the other wrappers do rather than resolving a different path.
+    if path.as_os_str().as_bytes().contains(&b'\0') {
+        return Err(Error::Openat2 {
+            dirfd: dirfd.into(),
+            path: path.into(),
+            how,
+            size: std::mem::size_of::<OpenHow>(),
+            source: Errno::INVAL,
+        });
+    }
+
     // SAFETY: Obviously safe-to-use Linux syscall.
     let fd = unsafe {
         libc::syscall(
